@@ -105,6 +105,12 @@ func (w *flakyWriter) Write(p []byte) (int, error) {
 	return len(p), nil
 }
 
+// the program compiled last by this worker, and the hash of its code at that time
+var (
+	c10Prev     *bcl.Prog
+	c10PrevHash uint64
+)
+
 func c10Program(c *core.Ctx, src []byte, variant []byte) { c10ProgramLog(c, src, variant, nil) }
 
 // c10ProgramLog: logw, when given, takes the diagnostics (a writer that fails now and then).
@@ -127,6 +133,16 @@ func c10ProgramLog(c *core.Ctx, src []byte, variant []byte, logw *flakyWriter) {
 		c.Count("programs_rejected_by_parse", 1)
 		return
 	}
+	// the program compiled before this one is still the caller's: its code must be what it was
+	if c10Prev != nil {
+		if now := bcl.VerifProgParts(c10Prev).Code; core.Hash(now) != c10PrevHash {
+			c.Violation("earlier-program-changed-by-later-compilation", fmt.Sprintf("the code of the previously compiled program (%d bytes) changed while this one was compiled", len(now)), map[string]any{"this_source": core.Trunc(string(src), 1500)})
+			c10Prev = nil
+			return
+		}
+		c.Count("earlier_programs_re_examined_after_the_next_compilation", 1)
+	}
+	c10Prev, c10PrevHash = prog, core.Hash(bcl.VerifProgParts(prog).Code)
 	f := partsFile(prog)
 	st, verr := bc.Verify(f)
 	det := func() map[string]any {
@@ -282,6 +298,10 @@ func fl(text string) *lang.Literal {
 
 func c10Fixed() []string {
 	var l []string
+	// code sizes sweeping across the 4096-byte mark (each is re-verified after the next compilation, see c10ProgramLog)
+	for n := 1750; n <= 2100; n += 7 {
+		l = append(l, "eval 1"+strings.Repeat("+1", n)+"\nprint 2 and 3 or 4\n")
+	}
 	// int literals without a value, wherever an operand may stand (rejected today; if ever accepted, the code must be sound)
 	for _, lit := range []string{"9223372036854775808", "0x8000000000000000", "0xffffffffffffffffff", "0X10000000000000000", "18446744073709551616", "01777777777777777777777", "08", "0x", "1e999", "0x1p-2"} {
 		l = append(l, "print "+lit+"\n", "var a = "+lit+"\nprint a\n", "def b { x = 1 or "+lit+"; y = 0 and "+lit+" }\n", "print -"+lit+" + 1\n", "def b { f = "+lit+" }\nbind b -> struct\n")
@@ -364,6 +384,15 @@ func c10Fixed() []string {
 		}
 		l = append(l, b.String())
 	}
+	// constant pools around 2^16: the names of a block created and used again right there
+	for _, n := range []int{65530, 65533, 65534, 65535, 65536, 65537, 65540} {
+		var b strings.Builder
+		for k := 0; k < n; k++ {
+			fmt.Fprintf(&b, "eval %d.5\n", k)
+		}
+		b.WriteString("def blk_late \"late\" { f_late = 1 or 2; g_late = f_late and f_late }\ndef blk_late { g_late = 0 or 1 }\nbind blk_late:all -> slice\n")
+		l = append(l, b.String())
+	}
 	// nested chains
 	l = append(l, "var a = 1 var b = 0\nprint a and b and a or b or a and (b or a) and not (a and b)\nprint (a = b) or (b = a) and a\ndef x { f = a and (g = b) or (h = a and not b) }\n")
 	return l
@@ -375,7 +404,7 @@ func init() {
 		Level: "exploration",
 		Rule: "structural-invariant monitor over the artefact of every compilation, at the quiescent point 'Parse returned': an independent decoder + CFG dataflow checker (instructions tile the code, RET last and only there, operand kinds, jump targets on boundaries, equal operand/block depth on all in-edges, slots live, depth 0 at RET) over the program's in-memory parts; " +
 			"cross-checked dynamically through the VM hook (every executed pc is a boundary, tos/blockTos equal the static values), each program also executed with flipped switch variables so that short-circuit jumps are seen taken and not taken. " +
-			"distinct = hash of code+constants; non-trivial = the program contains >= 1 jump Fixed boundary programs: > 240 locals and constants, 2600 constants (operand 2287/2288), skipped operands of 65524..65540 code bytes for and / or / and-then-or / or-chains, chains of 2..40 and/or operands. 1% of int literals are spelled without a value (2^63, 2^64, hex and octal overflow, 08, 0x); a quarter of the programs get one token damaged and their diagnostics go to a log writer that fails on some writes and recovers: whatever Parse accepts is verified.",
+			"distinct = hash of code+constants; non-trivial = the program contains >= 1 jump Fixed boundary programs: > 240 locals and constants, 2600 constants (operand 2287/2288), skipped operands of 65524..65540 code bytes for and / or / and-then-or / or-chains, chains of 2..40 and/or operands. 1% of int literals are spelled without a value (2^63, 2^64, hex and octal overflow, 08, 0x); a quarter of the programs get one token damaged and their diagnostics go to a log writer that fails on some writes and recovers: whatever Parse accepts is verified. Code sizes sweeping across 4096 bytes; constant pools of 65530..65540 entries with identifiers created right there; each compiled program's code is hashed and compared again after the next compilation.",
 		Assumptions:   []string{"the opcode table of internal/bc (operand shapes, stack effects) is the documented instruction set; it is validated against the real VM by the dynamic cross-check"},
 		MinNontrivial: 500,
 		Run: func(c *core.Ctx) {
